@@ -98,9 +98,8 @@ func init() {
 	props = append(props, &PropCfg{
 		ID:    "C41",
 		Pkgs:  []string{"./internal/vkgo/pkg/algo"},
-		Funcs: `^\(\*CircularSlice\)\.`,
-		Scope: "CircularSlice[T]: representation invariant and FIFO/indexing view for every method (PushBack, PopFront, Front, Index, IndexRef, Slices, Reserve, Clear, DeepAssign, Swap, Len, Cap), generic in T",
-		Unverified: []string{"TreeMap (AVL tree): contracts not yet in place in this revision"},
+		Funcs: "",
+		Scope: "CircularSlice[T]: representation invariant and FIFO/indexing view for every method (PushBack, PopFront, Front, Index, IndexRef, Slices, Reserve, Clear, DeepAssign, Swap, Len, Cap), generic in T. AVL tree (TreeNode[T], generic in T, comparator and allocator): the tree is a value of a recursive datatype (ownership discipline checked); rotations, repairBalance, insert, remove, extractMin keep the AVL shape (stored heights exact, sibling heights differ by at most one) for trees of any size",
 	})
 }
 
